@@ -13,6 +13,7 @@ def run(ctx):
     ctx.run(FL.flw23_filter_exactly_once)
     ctx.run(OP.who5_in_place_operators)
     ctx.run(OP.tbl19_connectives_and_null)
+    ctx.run(OP.tbl20_registry_forwards_null)
     return ctx.finish(
         'Static rules: the string dictionary is sorted before indices are assigned (range '
         'predicates run on dictionary indices), a codec op is declared order-/summation-preserving '
